@@ -78,19 +78,36 @@ class ILock:
         self._real = real
         self._name = name
         self._run = run
+        # a lock object without .locked() is not a threading.Lock (an RLock, say): its state is
+        # then tracked here, and - an owner-based lock lets its owner in again - an acquire by
+        # the thread that holds it is *not* blocked, so that the exploration walks into what the
+        # real object allows (seeded change C20-8: write mutex made reentrant)
+        self._tracked = not hasattr(real, 'locked')
+        self._owner = None
+        self._depth = 0
 
     def acquire(self, blocking: bool = True, timeout: float = -1) -> bool:
         self._run.point(('acq', self._name))
         ok = self._real.acquire(False)
         if not ok:      # can not happen: the scheduler only lets an unblocked acquire run
             raise AssertionError('scheduler let a blocked acquire run')
+        self._owner = getattr(self._run.local, 'i', None)
+        self._depth += 1
         return True
 
     def release(self) -> None:
         self._run.point(('rel', self._name))
         self._real.release()
+        self._depth = max(0, self._depth - 1)
+        if not self._depth:
+            self._owner = None
 
     def locked(self) -> bool:
+        return self._depth > 0 if self._tracked else self._real.locked()
+
+    def blocked_for(self, i: int) -> bool:
+        if self._tracked:
+            return self._depth > 0 and self._owner != i
         return self._real.locked()
 
     __enter__ = acquire
@@ -217,7 +234,7 @@ class ThrRun:
 
     def blocked(self, i: int) -> bool:
         op = self.pending[i]
-        return op[0] == 'acq' and (self.rl if op[1] == 'rl' else self.wl).locked()
+        return op[0] == 'acq' and (self.rl if op[1] == 'rl' else self.wl).blocked_for(i)
 
     def enabled(self) -> list[int]:
         return [i for i in range(len(self.progs))
